@@ -104,9 +104,9 @@ def write_var(rng, lines, section, v, node_id, with_value):
     lines.append("")
 
 
-def write_eds(rng, objs, node_id_in_file, bitrate, with_value):
+def write_eds(rng, objs, node_id_in_file, bitrate, with_value, rates=(250, 500)):
     L = ["[FileInfo]", "FileName=gen.eds", "", "[DeviceInfo]", "VendorName=ACME", "VendorNumber=0x1234", "ProductName=Thing",
-         "ProductNumber=77", "RevisionNumber=3", "OrderCode=OC-1", "BaudRate_250=1", "BaudRate_500=1", "BaudRate_1000=0",
+         "ProductNumber=77", "RevisionNumber=3", "OrderCode=OC-1"] + ["BaudRate_%d=%d" % (r, int(r in rates)) for r in (10, 20, 50, 125, 250, 500, 800, 1000)] + [
          "LSS_Supported=1", "NrOfRXPDO=2", "NrOfTXPDO=4", "", "[Comments]", "Lines=2", "Line1=first comment", "Line2=second = comment", ""]
     if node_id_in_file is not None or bitrate is not None:
         L.append("[DeviceComissioning]")
@@ -169,7 +169,8 @@ def import_described(tier, seed):
         objs = gen_dict(rng, eff)
         dcf = rng.random() < 0.5
         bitrate = rng.choice([None, 250, 500])
-        text = write_eds(rng, objs, in_file, bitrate, dcf)
+        rates = tuple(r for r in (10, 20, 50, 125, 250, 500, 800, 1000) if rng.random() < 0.4)
+        text = write_eds(rng, objs, in_file, bitrate, dcf, rates)
         fp = io.StringIO(text)
         fp.name = "gen.dcf" if dcf else "gen.eds"
         evals += 1
@@ -190,8 +191,8 @@ def import_described(tier, seed):
             fail.append("comments %r" % od.comments)
         di = od.device_information
         if (di.vendor_name, di.vendor_number, di.product_number, di.nr_of_TXPDO, di.LSS_supported) != ("ACME", 0x1234, 77, 4, True) \
-                or di.allowed_baudrates != {250000, 500000}:
-            fail.append("device information differs")
+                or di.allowed_baudrates != {r * 1000 for r in rates}:
+            fail.append("device information differs (allowed bit rates %s, file says %s)" % (sorted(di.allowed_baudrates), list(rates)))
         for index, (kind, d) in objs.items():
             if index not in od.indices:
                 continue
@@ -256,6 +257,11 @@ def build_od(rng, objs, node_id, bitrate):
         var.pdo_mappable = v["mappable"]
         if "default" in v:
             var.default = v["default"]
+        if "relative" in v and node_id is not None:
+            # a $NODEID-relative default as an imported dictionary carries it: raw text + flag + resolved value
+            var.default_raw = "$NODEID+0x%X" % v["relative"]
+            var.relative = True
+            var.default = v["relative"] + node_id
         if "min" in v:
             var.min, var.max = v["min"], v["max"]
         if "value" in v:
@@ -285,11 +291,12 @@ def export_import_roundtrip(tier, seed):
     failures = []
     for it in range(n):
         node_id = rng.choice([None, rng.randint(1, 127)])
-        objs = {i: o for i, o in gen_dict(rng, None).items() if 0x1000 <= i}
+        objs = {i: o for i, o in gen_dict(rng, node_id).items() if 0x1000 <= i}
+        doc = rng.choice(["eds", "dcf"])
         for kind, d in objs.values():
             for v in ([d] if kind in ("var", "compact") else d["members"].values()):
-                v.pop("relative", None)
-        doc = rng.choice(["eds", "dcf"])
+                if doc != "dcf" or node_id is None:
+                    v.pop("relative", None)     # only a DCF carries the node id needed to resolve $NODEID on re-import
         bitrate = rng.choice([None, 250000, 500000])
         od = build_od(rng, objs, node_id, bitrate)
         dest_kind = rng.choice(["file", "stream", "stdout"])
@@ -335,6 +342,8 @@ def export_import_roundtrip(tier, seed):
             fail.append("device information differs")
 
         def same(a, b, where):
+            if getattr(a, "relative", False) != getattr(b, "relative", False):
+                fail.append("%s: relative flag %r -> %r" % (where, getattr(a, "relative", False), getattr(b, "relative", False)))
             for attr in ("name", "index", "subindex", "data_type", "access_type", "pdo_mappable", "default", "min", "max",
                          "storage_location", "factor", "unit", "description") + (("value",) if doc == "dcf" else ()):
                 if getattr(a, attr) != getattr(b, attr):
